@@ -65,6 +65,7 @@ type Tx struct {
 	writable               bool
 	pendingWrites          []*Entry
 	ReservedStoreTxIDIdxes map[int64]*BPTree
+	lockHeldByCaller       bool // the caller (Merge) already holds db.mu for this transaction
 }
 
 // Begin opens a new transaction.
@@ -593,6 +594,9 @@ func (tx *Tx) Rollback() error {
 
 // lock locks the database based on the transaction type.
 func (tx *Tx) lock() {
+	if tx.lockHeldByCaller {
+		return
+	}
 	if tx.writable {
 		tx.db.mu.Lock()
 	} else {
@@ -602,6 +606,9 @@ func (tx *Tx) lock() {
 
 // unlock unlocks the database based on the transaction type.
 func (tx *Tx) unlock() {
+	if tx.lockHeldByCaller {
+		return
+	}
 	if tx.writable {
 		tx.db.mu.Unlock()
 	} else {
